@@ -121,6 +121,7 @@ func c16Window(point, cause string, seed uint64, pfx string) {
 	yieldAnyBuf.Store(&h)
 	defer yieldAnyBuf.Store(nil)
 	var P *rawclient.Client
+	pSent := 0 // PINGREQs sent by P (one may still be unanswered when the window is reached)
 	switch point {
 	case "buf.readwait.prewait", "buf.peek.prewait":
 		// after this round trip V's processor goes back to wait for the next packet and its sender for data
@@ -146,6 +147,7 @@ func c16Window(point, cause string, seed uint64, pfx string) {
 			}
 			P.SendPacket(&rc.Packet{Type: rc.PUBLISH, Topic: []byte("to/v"), Payload: spec.MakePayload(uint64(k+1), 0, 1500)})
 			P.SendPacket(&rc.Packet{Type: rc.PINGREQ})
+			pSent++
 			want := k + 1
 			// either the barrier comes back (the delivery fitted) or the delivery is waiting for space in V's ring
 			for w8 := 0; w8 < 400 && !reached; w8++ {
@@ -219,9 +221,9 @@ func c16Window(point, cause string, seed uint64, pfx string) {
 	}
 	if P != nil && cause != "server-close" {
 		// the publisher whose delivery was parked on V's ring must be released by V's teardown
-		n := countType(P.Log(), rc.PINGRESP)
 		P.SendPacket(&rc.Packet{Type: rc.PINGREQ})
-		if P.WaitFor(func(l []rawclient.Event, closed bool) bool { return countType(l, rc.PINGRESP) > n }, 5*time.Second) != nil {
+		pSent++
+		if P.WaitFor(func(l []rawclient.Event, closed bool) bool { return countType(l, rc.PINGRESP) >= pSent }, 5*time.Second) != nil {
 			var tops []string
 			for _, g := range libGoroutines() {
 				tops = append(tops, g.libTop()+":"+g.state)
